@@ -67,7 +67,13 @@ def sec_apply_isospin(rep):
             import yadism.coefficient_functions as cfm
             from pvc.stubs import np_shim_for
 
-            ks = [Kernel({p: sy.U("w", k, p) for p in pids}, object()) for k in range(2)]
+            from yadism.coefficient_functions.partonic_channel import EmptyPartonicChannel
+
+            # the rotation is a property of the weights alone: kernels whose coefficient function is an
+            # EmptyPartonicChannel (gL / g4 valence, disabled channels) sit anywhere in a real list and
+            # must neither be treated specially nor stop the loop
+            empty = EmptyPartonicChannel.__new__(EmptyPartonicChannel)
+            ks = [Kernel({p: sy.U("w", k, p) for p in pids}, empty if k in (0, 2) else object()) for k in range(4)]
             old = [dict(k.partons) for k in ks]
             coeffs = [k.coeff for k in ks]
             f = {p: sy.U("f", p) for p in PIDS}
@@ -206,6 +212,9 @@ def sec_lattice(rep, tier):
         # quick: the generators read kind only through parity and module dispatch, and pto/pto_evol only
         # through the N3LO fl11 kernels and the number of asymptotic logs -> two kinds, two order pairs
         cells = list(H.lattice(tier, kinds=("F2", "F3"), ptos=((1, 1), (3, 2)), with_fonllparts=False))
+        # ... and the polarised kinds at NNLO, whose lists hold empty channels in front of the
+        # light-quark kernels of the heavy-quark loop
+        cells += [c for c in H.lattice(tier, kinds=("gL", "g1"), flavors=("total", "light"), ptos=((2, 2),), with_fonllparts=False) if c["process"] != "CC"]
     parallel(rep, cells, worker)
     rep.sample({"lattice cells enumerated": len(cells)})
 
